@@ -17,6 +17,7 @@
 package safe
 
 import (
+	"errors"
 	"fmt"
 )
 
@@ -37,4 +38,19 @@ func NewPanicErr(info any, stack []byte) error {
 		info:  info,
 		stack: stack,
 	}
+}
+
+// ErrNilPanic stands for the value of a panic whose value recover() reports as nil.
+var ErrNilPanic = errors.New("panic called with nil argument (or runtime.Goexit)")
+
+// PanicValue tells a deferred function whether the function it guards panicked, and with what:
+// recovered is the result of its own call of recover(), completed says whether the guarded function
+// ran to its end. recover() returns nil for panic(nil) unless the main module's go directive is 1.21
+// or later (and for runtime.Goexit), so a nil recovered value alone does not mean "no panic": a
+// function that neither completed nor panicked with a value is reported as ErrNilPanic.
+func PanicValue(recovered any, completed bool) any {
+	if recovered == nil && !completed {
+		return ErrNilPanic
+	}
+	return recovered
 }
